@@ -159,7 +159,110 @@ func errHandled(c *Ctx, nr *noRet, call ssa.CallInstruction, eidx int) (ok bool,
 	if !handled && why == "" {
 		why = "the error result is never tested"
 	}
+	// every path from the write to a return must look at the error: a return reached without crossing a
+	// test of this error (or returning it) drops it on that path
+	if handled {
+		if ci, ok := call.(ssa.Instruction); ok {
+			if p := unexaminedReturn(ci, errVals); p != token.NoPos {
+				return false, returnedAt, "a path returns (at " + c.posStr(p) + ") without having examined the write error"
+			}
+		}
+	}
 	return handled, returnedAt, why
+}
+
+// unexaminedReturn searches the control-flow graph from the call for a Return that is reachable without
+// passing an If on the error value and that does not return the error itself.
+func unexaminedReturn(call ssa.Instruction, errVals []ssa.Value) token.Pos {
+	isErr := map[ssa.Value]bool{}
+	for _, v := range errVals {
+		isErr[v] = true
+	}
+	testsErr := func(b *ssa.BasicBlock) bool {
+		if len(b.Instrs) == 0 {
+			return false
+		}
+		iff, ok := b.Instrs[len(b.Instrs)-1].(*ssa.If)
+		if !ok {
+			return false
+		}
+		// the condition (possibly a chain of && / || lowered to blocks) mentions the error
+		var mentions func(v ssa.Value, depth int) bool
+		mentions = func(v ssa.Value, depth int) bool {
+			if depth > 4 {
+				return false
+			}
+			if isErr[v] {
+				return true
+			}
+			if bo, ok := v.(*ssa.BinOp); ok {
+				return mentions(bo.X, depth+1) || mentions(bo.Y, depth+1)
+			}
+			if ph, ok := v.(*ssa.Phi); ok {
+				for _, e := range ph.Edges {
+					if mentions(e, depth+1) {
+						return true
+					}
+				}
+			}
+			return false
+		}
+		return mentions(iff.Cond, 0)
+	}
+	start := call.Block()
+	// instructions after the call in its own block
+	after := false
+	for _, in := range start.Instrs {
+		if in == call {
+			after = true
+			continue
+		}
+		if !after {
+			continue
+		}
+		if r, ok := in.(*ssa.Return); ok {
+			for _, res := range r.Results {
+				if isErr[res] {
+					return token.NoPos
+				}
+			}
+			return r.Pos()
+		}
+	}
+	if testsErr(start) {
+		return token.NoPos
+	}
+	seen := map[*ssa.BasicBlock]bool{start: true}
+	work := append([]*ssa.BasicBlock{}, start.Succs...)
+	for len(work) > 0 {
+		b := work[len(work)-1]
+		work = work[:len(work)-1]
+		if seen[b] {
+			continue
+		}
+		seen[b] = true
+		stop := false
+		for _, in := range b.Instrs {
+			switch in := in.(type) {
+			case *ssa.Return:
+				for _, res := range in.Results {
+					if isErr[res] {
+						stop = true
+					}
+				}
+				if !stop {
+					return in.Pos()
+				}
+			case *ssa.Panic:
+				stop = true
+			}
+		}
+		if stop || testsErr(b) {
+			continue
+		}
+		work = append(work, b.Succs...)
+	}
+	return token.NoPos
 }
 
 // blockAborts: the branch taken on failure raises (no-return call / panic) or returns the error.
